@@ -157,9 +157,18 @@ func init() {
 		"vfTier": func(m *Machine, fr *frame, fn *ssa.Function, a []Value) Value { return m.C.BVC(uint64(m.Opt.Tier), 64) },
 		"vfNow": func(m *Machine, fr *frame, fn *ssa.Function, a []Value) Value { return m.C.BVC(uint64(m.now), 64) },
 		"vfPoint": func(m *Machine, fr *frame, fn *ssa.Function, a []Value) Value {
+			m.cur.points++
+			if id, ok := a[0].(T); ok && id.IsConst() {
+				if pos, ok := m.P.Points[int(id.Val)]; ok {
+					m.cur.lastPoint = pos
+				}
+			}
 			m.yield("point")
 			return nil
 		},
+		"vfSpawn": func(m *Machine, fr *frame, fn *ssa.Function, a []Value) Value { return m.C.BVC(uint64(len(m.gs)), 64) },
+		"vfEnter": func(m *Machine, fr *frame, fn *ssa.Function, a []Value) Value { return nil },
+		"vfExit":  func(m *Machine, fr *frame, fn *ssa.Function, a []Value) Value { return nil },
 		"vfLockHeld": func(m *Machine, fr *frame, fn *ssa.Function, a []Value) Value {
 			// 0 = free, 1 = read-locked, 2 = write-locked
 			p := a[0].(Iface).V.(*Value)
